@@ -73,6 +73,11 @@ def main():
         "aarch64": [("xsys", XSYS + "/zsysnum_linux_arm64.go", go_sysnum), ("goroot", GOROOT + "/zsysnum_linux_arm64.go", go_sysnum)],
         "x32": [("uapi", INC + "/x86_64-linux-gnu/asm/unistd_x32.h", hdr_sysnum)],
     }
+    # the other Linux ports of Go: no table in the library today; recorded so that a table added later has an oracle
+    # (key = the Linux architecture name the library uses, sources = x/sys and GOROOT/syscall for the matching GOARCH)
+    for linux_name, goarch in [("riscv64", "riscv64"), ("loongarch64", "loong64"), ("ppc64", "ppc64"), ("ppc64le", "ppc64le"), ("s390x", "s390x"),
+                               ("mips", "mips"), ("mipsel", "mipsle"), ("mips64", "mips64"), ("mipsel64", "mips64le"), ("ppc", "ppc"), ("sparc64", "sparc64")]:
+        tables[linux_name] = [("xsys", XSYS + "/zsysnum_linux_%s.go" % goarch, go_sysnum), ("goroot", GOROOT + "/zsysnum_linux_%s.go" % goarch, go_sysnum)]
     for abi, srcs in tables.items():
         o["syscalls"][abi] = {}
         for name, path, fn in srcs:
